@@ -176,7 +176,8 @@ PolyhedralSyntaxAbsoluteTermOrTerm = Union[PolyhedralSyntaxAbsoluteTerm, Polyhed
 def _combine_optional_floats(f1: Optional[float], f2: Optional[float]) -> Optional[float]:
     if f1 is None:
         if f2 is None:
-            return None
+            # two absolute terms without explicit coefficient: 1 + 1
+            return 2.0
         return f2 + 1
     if f2 is None:
         return f1 + 1
